@@ -6,8 +6,8 @@
 (***************************************************************************)
 EXTENDS FftFamily
 CONSTANTS Shapes, Level, Names     \* Level 0: thin (one option varied at a time), 1: n x norm pairs, 2: full product
-VARIABLES c, out, done
-vars == <<c, out, done, tab>>
+VARIABLES c, out, done, call
+vars == <<c, out, done, call, tab>>
 
 Norms == {"backward", "forward", "ortho"}
 PMax(a, b) == IF a >= b THEN a ELSE b
@@ -72,8 +72,60 @@ CaseSet == UNION {IF name \in Names1 THEN {cc \in Cases1(name) : Valid1(cc)} ELS
 WithX(cc) == [name |-> cc.name, x |-> Input(cc.sh, cc.kind), n |-> cc.n, axis |-> cc.axis,
               s |-> cc.s, axes |-> cc.axes, norm |-> cc.norm]
 Empty == [sh |-> <<>>, v |-> <<>>]
-Init == TabInit /\ c \in CaseSet /\ out = Empty /\ done = FALSE
-Next == ~done /\ out' = Eval(WithX(c)) /\ done' = TRUE /\ UNCHANGED <<c, tab>>
+
+(***************************************************************************)
+(* Calls.  A case (name, shape, kind, n/axis or s/axes, norm) fixes the    *)
+(* mathematical result; a CALL of it additionally fixes how the arguments  *)
+(* are handed over and what the input array's element type is:             *)
+(*   dt   input dtype (NumPy name; the small integers of the input are     *)
+(*        cast to it)                                                      *)
+(*   ct   container of s / axes: tuple ("py"), list, range, ndarray of      *)
+(*        int64 / int32 (for the scalars n / axis: int, np.int64, np.int32)*)
+(*   cf   how many of (n|s, axis|axes, norm) are passed positionally       *)
+(* Every case is expanded into several calls (the result is evaluated      *)
+(* once); two sweeps make the coverage independent of any sampling:        *)
+(*   dtype sweep  every dtype of the pool, for every name (default args)   *)
+(*   form sweep   every container x every positional prefix, for the n-D   *)
+(*                and 2-D families whenever len(s) < ndim                  *)
+(***************************************************************************)
+RealDT == <<"float64", "float32", "float16", "longdouble", "int8", "int16", "int32", "int64",
+            "uint8", "uint16", "uint32", "uint64", "bool", ">f8", ">f4", ">i4", ">u2", "<f8">>
+CplxDT == <<"complex128", "complex64", "clongdouble", ">c16", ">c8", "<c16">>
+DTs(kind) == IF kind = "real" THEN RealDT ELSE CplxDT
+Containers == <<"py", "list", "nd64", "nd32", "range">>
+NameSeq == <<"fft", "ifft", "rfft", "irfft", "hfft", "ihfft", "fft2", "ifft2", "rfft2", "irfft2",
+             "fftn", "ifftn", "rfftn", "irfftn">>
+NameIx(name) == CHOOSE i \in 1..14 : NameSeq[i] = name
+NormIx(nm) == CASE nm = "none" -> 0 [] nm = "backward" -> 1 [] nm = "forward" -> 2 [] nm = "ortho" -> 3
+RECURSIVE SumSeq(_, _)
+SumSeq(q, i) == IF i > Len(q) THEN 0 ELSE q[i] + SumSeq(q, i + 1)
+\* a number that differs between neighbouring cases (spreads dtypes and forms over the matrix)
+H(cc) == Size(cc.sh) + 3 * Len(cc.sh) + (IF cc.n = NoneI THEN 1 ELSE cc.n) + (IF cc.axis = NoneI THEN 2 ELSE cc.axis + 5)
+         + 2 * SumSeq(cc.s, 1) + 7 * Len(cc.axes) + SumSeq(cc.axes, 1) + 6 + NormIx(cc.norm) + NameIx(cc.name)
+         + (IF cc.kind = "real" THEN 0 ELSE 3)
+\* range(a, b) can stand for a tuple only if it counts up by one
+RangeOK(q) == \A i \in 1..(Len(q) - 1) : q[i + 1] = q[i] + 1
+CtOK(cc, ct) == IF cc.name \in Names1 THEN ct \in {"py", "nd64", "nd32"}
+                ELSE ct = "range" => (RangeOK(cc.s) /\ RangeOK(cc.axes))
+CtFix(cc, ct) == IF CtOK(cc, ct) THEN ct ELSE "py"
+MkCall(cc, dt, ct, cf) == [name |-> cc.name, sh |-> cc.sh, kind |-> cc.kind, n |-> cc.n, axis |-> cc.axis, s |-> cc.s,
+                           axes |-> cc.axes, norm |-> cc.norm, dt |-> dt, ct |-> ct, cf |-> cf]
+NVar == IF Level = 0 THEN 2 ELSE 3
+Cycled(cc) == {MkCall(cc, DTs(cc.kind)[((H(cc) + 5 * k) % Len(DTs(cc.kind))) + 1],
+                      CtFix(cc, Containers[((H(cc) + 2 * k) % 5) + 1]), (H(cc) + k) % 4) : k \in 0..(NVar - 1)}
+DefaultArgs(cc) == cc.n = NoneI /\ cc.axis = NoneI /\ cc.s = <<>> /\ cc.axes = <<>> /\ cc.norm = "none"
+DtSweep(cc) == IF DefaultArgs(cc) /\ cc.sh = <<2, 3>>
+               THEN {MkCall(cc, DTs(cc.kind)[i], "py", 0) : i \in 1..Len(DTs(cc.kind))} ELSE {}
+FormSweep(cc) == IF cc.name \notin Names1 /\ cc.s # <<>> /\ Len(cc.s) < Len(cc.sh) /\ cc.norm = "none" /\ cc.kind = "real"
+                 THEN {MkCall(cc, "float64", Containers[i], cf) : i \in {j \in 1..5 : CtOK(cc, Containers[j])}, cf \in 0..3}
+                 ELSE {}
+Calls(cc) == Cycled(cc) \cup DtSweep(cc) \cup FormSweep(cc)
+
+NoCall == [name |-> "none"]
+Init == TabInit /\ c \in CaseSet /\ out = Empty /\ done = FALSE /\ call = NoCall
+Evaluate == ~done /\ out' = Eval(WithX(c)) /\ done' = TRUE /\ UNCHANGED <<c, call, tab>>
+Expand == done /\ call.name = "none" /\ call' \in Calls(c) /\ UNCHANGED <<c, out, done, tab>>
+Next == Evaluate \/ Expand
 Spec == Init /\ [][Next]_vars
 
 \* the result has the documented shape
